@@ -1,6 +1,5 @@
 //! C08 — shapes and attribute rows stay paired one-to-one through write and read.
 
-use crate::common::scratch_dir;
 use proptest::prelude::*;
 use serde::{Deserialize, Serialize};
 use shapefile::dbase;
@@ -287,11 +286,7 @@ where
 
     // on-disk routes: only histories without row failures (those are covered in memory; K1 would leave
     // files that cannot be compared)
-    let dir = scratch_dir();
-    let p = dir.join("c08.shp");
-    for ext in ["shp", "shx", "dbf"] {
-        let _ = std::fs::remove_file(p.with_extension(ext));
-    }
+    let p = crate::common::scratch_shp("c08", c.calls.len() + c.geoms.len());
     {
         let mut w = if c.route == 1 {
             Writer::from_path(&p, builder())
